@@ -293,10 +293,13 @@ def structural(prop="C16"):
             for k, v in zip(n.keys, n.values):
                 if isinstance(k, ast.Constant) and k.value == "external_url":
                     seen = ast.unparse(v)
+                    if isinstance(v, ast.IfExp) and isinstance(v.orelse, ast.Constant) and v.orelse.value == "" and "visible" in ast.unparse(v.test):
+                        v = v.body          # an entity whose page is not written is exported without a URL (the empty string: dict2obj keeps it empty)
                     ok = (isinstance(v, ast.JoinedStr) and len(v.values) == 2 and isinstance(v.values[0], ast.Constant) and v.values[0].value == EXPORT_PREFIX
                           and isinstance(v.values[1], ast.FormattedValue) and ast.unparse(v.values[1].value) == "intObj.get_url()")
     out.append(OR(id=f"{prop}.S.obj2dict.exports_dot_slash_relative_url", status=PROVED if ok else REFUTED, kind="S", target="ford.external_project.obj2dict", role="post", backend="ast",
-                  desc="the exported external_url of an entity is './' followed by its get_url() (the form whose first component dict2obj strips: hypothesis of the round-trip postcondition)",
+                  desc="the exported external_url of an entity is './' followed by its get_url() (the form whose first component dict2obj strips: hypothesis of the round-trip postcondition), "
+                       "or empty for an entity whose page is not written",
                   witness=None if ok else {"external_url expression": seen}))
     # 1b. obj2dict exports list attributes filtered by accessibility
     comps = [n for n in ast.walk(fn) if isinstance(n, ast.ListComp) and "obj2dict(item)" in ast.unparse(n.elt)]
